@@ -388,6 +388,17 @@ def step (useSpec : Bool) (st : St) (line : String) : St × String :=
         ({ st with graphs := st.graphs.map fun p => if p.1 == n then (p.1, p.2.addAll BW.Generated.memoryFacts vs) else p }, "ok")
       else (st, "err")
     | none => (st, "bad-op")
+  | ["rem", n, ts] =>
+    let r : Option (Bytes × List TView) := do
+      let n ← unhexBytes n
+      let vs ← if ts = "-" then some [] else (fields ts).mapM fun f => do st.view (← f.toNat?)
+      pure (n, vs)
+    match r with
+    | some (n, vs) =>
+      if st.graphs.any (·.1 == n) then
+        ({ st with graphs := st.graphs.map fun p => if p.1 == n then (p.1, p.2.remAll BW.Generated.memoryFacts vs) else p }, "ok")
+      else (st, "err")
+    | none => (st, "bad-op")
   | "Q" :: ws =>
     match parseStmt ws with
     | none => (st, "bad-op")
